@@ -236,11 +236,12 @@ class Ctx(object):
         sys.stderr.write('[%s %5.1fs] %s\n' % (self.prop, time.time() - self.t0, msg))
         sys.stderr.flush()
 
-    def model(self, lines):
-        """Run protocol lines (without the property prefix) through the Lean driver."""
+    def model(self, lines, prefix=None):
+        """Run protocol lines (without the property prefix) through the Lean driver.
+        `prefix` selects another driver module than the property's own (e.g. 'TR', Drv/Translated.lean)."""
         if not self.model_ok:
             return None
-        inp = ''.join('%s %s\n' % (self.prop, l) for l in lines)
+        inp = ''.join('%s %s\n' % (prefix or self.prop, l) for l in lines)
         p = subprocess.run([DRIVER], input=inp, stdout=subprocess.PIPE, stderr=subprocess.PIPE, text=True)
         out = p.stdout.splitlines()
         if p.returncode != 0 or len(out) != len(lines):
@@ -272,9 +273,9 @@ class Ctx(object):
             self.failures.append({'key': key, 'case': case, 'what': what})
         self.count('oracle_failures')
 
-    def compare(self, cases, impl_outs, lines, label='case'):
+    def compare(self, cases, impl_outs, lines, label='case', prefix=None):
         """Diff implementation outputs with the model's for protocol `lines`; returns #disagreements."""
-        mouts = self.model(lines)
+        mouts = self.model(lines, prefix=prefix)
         if mouts is None:
             return 0
         n = 0
